@@ -229,7 +229,7 @@ theorem restartCrashed_cases (m : Meta) (ks : List Nat) :
       rw [restart_valid c (by simp [Meta.diskValid, hf])]
       exact ⟨rfl, rfl, ho, hf, hk⟩
 
-structure MInv (m : Meta) : Prop where
+structure MetaInv (m : Meta) : Prop where
   kinv : KInv m.keysMap
   finv : KInv (m.keysFile.getD [])
   flag : m.valid = true ↔ m.flagFile ≠ some 0
@@ -238,7 +238,7 @@ structure MInv (m : Meta) : Prop where
 /-- record `r` decodes, through the in-memory key map, to `key` -/
 def Decodes (m : Meta) (r : OpRec) (key : Bytes) : Prop := AL.get? m.keysMap key = some r.k
 
-theorem minv_init : MInv {} := ⟨kinv_nil, kinv_nil, by simp, by simp⟩
+theorem metaInv_init : MetaInv {} := ⟨kinv_nil, kinv_nil, by simp, by simp⟩
 
 theorem keyId_spec (m : Meta) (key : Bytes) :
     AL.get? (m.keyId key).1.keysMap key = some (m.keyId key).2 ∧ (m.keyId key).1.oplog = m.oplog ∧
@@ -250,7 +250,7 @@ theorem keyId_spec (m : Meta) (key : Bytes) :
     simp only []
     split <;> (simp only [get?_append_single, hg]; refine ⟨by simp, trivial, ?_⟩; intro k i hk; simp [hk])
 
-theorem keyId_inv (m : Meta) (key : Bytes) (h : MInv m) : MInv (m.keyId key).1 := by
+theorem keyId_inv (m : Meta) (key : Bytes) (h : MetaInv m) : MetaInv (m.keyId key).1 := by
   obtain ⟨hk, hf, hfl, hc⟩ := h
   unfold Meta.keyId
   cases hg : AL.get? m.keysMap key with
@@ -270,7 +270,7 @@ theorem keyId_inv (m : Meta) (key : Bytes) (h : MInv m) : MInv (m.keyId key).1 :
       · simp [hz]
       · intro hne; exact absurd hz hne
 
-theorem restart_minv (m : Meta) (h : MInv m) : MInv m.restart := by
+theorem restart_metaInv (m : Meta) (h : MetaInv m) : MetaInv m.restart := by
   obtain ⟨hk, hf, hfl, hc⟩ := h
   cases hv : m.diskValid with
   | true =>
@@ -281,7 +281,7 @@ theorem restart_minv (m : Meta) (h : MInv m) : MInv m.restart := by
     rw [restart_invalid m hv]
     exact ⟨kinv_nil, kinv_nil, by simp, by simp⟩
 
-theorem restart_stable (m : Meta) (h : MInv m) (r : OpRec) (key : Bytes)
+theorem restart_stable (m : Meta) (h : MetaInv m) (r : OpRec) (key : Bytes)
     (hd : Decodes m r key) (hh : m.restart.oplog.Has r) : Decodes m.restart r key := by
   unfold Decodes at *
   cases hv : m.diskValid with
@@ -294,7 +294,7 @@ theorem restart_stable (m : Meta) (h : MInv m) (r : OpRec) (key : Bytes)
     simp [OplogFs.Has] at hh
 
 /-- every operation preserves the invariant -/
-theorem step_inv (m : Meta) (op : MOp) (h : MInv m) : MInv (m.step op) := by
+theorem step_inv (m : Meta) (op : MOp) (h : MetaInv m) : MetaInv (m.step op) := by
   cases op with
   | register key => exact keyId_inv m key h
   | write key t d o =>
@@ -304,7 +304,7 @@ theorem step_inv (m : Meta) (op : MOp) (h : MInv m) : MInv (m.step op) := by
     obtain ⟨hk, hf, hfl, hc⟩ := h
     exact ⟨hk, hf, hfl, hc⟩
   | restartCrashed ks =>
-    have hr := restart_minv m h
+    have hr := restart_metaInv m h
     simp only [Meta.step]
     rcases restartCrashed_cases m ks with he | ⟨h1, h2, h3, h4, h5⟩
     · rw [he]; exact hr
@@ -330,11 +330,11 @@ theorem step_inv (m : Meta) (op : MOp) (h : MInv m) : MInv (m.step op) := by
     split
     · exact ⟨hk, by simpa using hk, by simp, by simp⟩
     · exact ⟨hk, hf, hfl, hc⟩
-  | restart => exact restart_minv m h
+  | restart => exact restart_metaInv m h
 
 /-- stability: whatever one operation does, a record still in the log afterwards keeps decoding
 to the same key (a start-up that cannot guarantee this has discarded the log) -/
-theorem step_stable (m : Meta) (op : MOp) (h : MInv m) (r : OpRec) (key : Bytes)
+theorem step_stable (m : Meta) (op : MOp) (h : MetaInv m) (r : OpRec) (key : Bytes)
     (hd : Decodes m r key) (hh : (m.step op).oplog.Has r) : Decodes (m.step op) r key := by
   unfold Decodes at *
   cases op with
@@ -367,12 +367,12 @@ def StaysIn (r : OpRec) : Meta → List MOp → Prop
   | _, [] => True
   | m, op :: rest => (m.step op).oplog.Has r ∧ StaysIn r (m.step op) rest
 
-theorem run_inv (m : Meta) (ops : List MOp) (h : MInv m) : MInv (runM m ops) := by
+theorem run_inv (m : Meta) (ops : List MOp) (h : MetaInv m) : MetaInv (runM m ops) := by
   induction ops generalizing m with
   | nil => exact h
   | cons op rest ih => exact ih _ (step_inv m op h)
 
-theorem run_stable (m : Meta) (ops : List MOp) (h : MInv m) (r : OpRec) (key : Bytes)
+theorem run_stable (m : Meta) (ops : List MOp) (h : MetaInv m) (r : OpRec) (key : Bytes)
     (hd : Decodes m r key) (hs : StaysIn r m ops) : Decodes (runM m ops) r key := by
   induction ops generalizing m with
   | nil => exact hd
@@ -389,8 +389,8 @@ theorem C16_record_decodes (before after : List MOp) (key : Bytes) (t d o : Nat)
     StaysIn r m1 after →
       keyOfId (runM m1 after).keysMap r.k = some key := by
   intro m0 r m1 hs
-  have h0 : MInv m0 := run_inv {} before minv_init
-  have h1 : MInv m1 := step_inv m0 _ h0
+  have h0 : MetaInv m0 := run_inv {} before metaInv_init
+  have h1 : MetaInv m1 := step_inv m0 _ h0
   have hd : Decodes m1 r key := (write_decodes m0 key t d o).2
   have hfin := run_stable m1 after h1 r key hd hs
   have hk := (run_inv m1 after h1).kinv
@@ -400,13 +400,13 @@ theorem C16_record_decodes (before after : List MOp) (key : Bytes) (t d o : Nat)
 /-- two keys never share an identifier, in any reachable state -/
 theorem C16_key_ids_injective (ops : List MOp) (k1 k2 : Bytes) (i : Nat)
     (h1 : AL.get? (runM {} ops).keysMap k1 = some i) (h2 : AL.get? (runM {} ops).keysMap k2 = some i) : k1 = k2 :=
-  (run_inv {} ops minv_init).kinv.2.2 k1 k2 i h1 h2
+  (run_inv {} ops metaInv_init).kinv.2.2 k1 k2 i h1 h2
 
 /-- the flag on disk says "valid" only when the keys file covers the in-memory map -/
 theorem C16_flag_means_covered (ops : List MOp) :
     let m := runM {} ops
     m.flagFile ≠ some 0 → m.keysFile.getD [] = m.keysMap :=
-  (run_inv {} ops minv_init).covered
+  (run_inv {} ops metaInv_init).covered
 
 /-- a start-up either keeps the log and the key map it had (valid flag) or discards the log -/
 theorem C16_restart_keeps_or_discards (ops : List MOp) :
@@ -414,7 +414,7 @@ theorem C16_restart_keeps_or_discards (ops : List MOp) :
     (m.restart.oplog = m.oplog ∧ m.restart.keysMap = m.keysMap ∧ m.restart.valid = true) ∨
     (m.restart.oplog = {} ∧ m.restart.valid = false ∧ m.restart.flagFile = some 0) := by
   intro m
-  have h := run_inv {} ops minv_init
+  have h := run_inv {} ops metaInv_init
   cases hv : m.diskValid with
   | true =>
     left; rw [restart_valid m hv]
@@ -428,7 +428,7 @@ theorem C16_restart_keeps_or_discards (ops : List MOp) :
 def applyXs (m : Meta) (xs : List XOp) : Meta := xs.foldl Meta.applyX m
 
 /-- the writes listed for an operation are what the operation does to the files -/
-theorem trace_is_step (m : Meta) (op : MOp) (_h : MInv m) (hop : ∀ k, op ≠ .restartCrashed k) (hr : op ≠ .restart) :
+theorem trace_is_step (m : Meta) (op : MOp) (_h : MetaInv m) (hop : ∀ k, op ≠ .restartCrashed k) (hr : op ≠ .restart) :
     (applyXs m (m.trace op)).disk = (m.step op).disk := by
   cases op with
   | restart => exact absurd rfl hr
@@ -454,12 +454,12 @@ theorem trace_is_step (m : Meta) (op : MOp) (_h : MInv m) (hop : ∀ k, op ≠ .
 /-- **crash points.** Kill the node after ANY number `k` of the writes of ANY operation and start
 it again: the resulting state is the state of a run of the machine (so everything proved for runs —
 invariant, decoding, injectivity — holds after every crash point). -/
-theorem crash_full (m : Meta) (op : MOp) (k : Nat) (h : MInv m) (hop : ∀ k, op ≠ .restartCrashed k) (hr : op ≠ .restart)
+theorem crash_full (m : Meta) (op : MOp) (k : Nat) (h : MetaInv m) (hop : ∀ k, op ≠ .restartCrashed k) (hr : op ≠ .restart)
     (hk : (m.trace op).length ≤ k) : (applyXs m ((m.trace op).take k)).restart = runM m [op, .restart] := by
   rw [List.take_of_length_le hk]
   exact restart_disk_only _ _ (trace_is_step m op h hop hr)
 
-theorem C16_crash_is_a_run (m : Meta) (op : MOp) (k : Nat) (h : MInv m) :
+theorem C16_crash_is_a_run (m : Meta) (op : MOp) (k : Nat) (h : MetaInv m) :
     ∃ ops : List MOp, (applyXs m ((m.trace op).take k)).restart = runM m ops := by
   cases op with
   | restart => exact ⟨[.restartCrashed [k]], by simp [runM, Meta.step, Meta.restartCrashed, Meta.crashStart, Meta.trace, applyXs]⟩
